@@ -214,13 +214,15 @@ def e2e_cli(shard, rec, lib, rnd, scratch):
             os.makedirs(d)
             fname = (x.replace("/", "_").replace("\x00", "_")[:60] or "x") + ".css"
             sheet = (f"a[title={css_string(x)}] {{ color: #777777; background-color: #ffffff; }}\n"
-                     f".plain {{ color: 119, 119, 119 {css_string(x)}; }}\n")
+                     f".plain {{ color: 119, 119, 119 {css_string(x)}; }}\n"
+                     f".nobg {{ color: #777777; }}\n")
             import tinycss2
             rule = [r for r in tinycss2.parse_stylesheet(sheet, skip_whitespace=True, skip_comments=True) if r.type == "qualified-rule"][0]
             rule2 = [r for r in tinycss2.parse_stylesheet(sheet, skip_whitespace=True, skip_comments=True) if r.type == "qualified-rule"][1]
             decl = [dd for dd in tinycss2.parse_declaration_list(rule2.content, skip_whitespace=True, skip_comments=True) if dd.type == "declaration"][0]
             # the user text as the tool reads it: serialised selector, file name, serialised colour value
-            shown[tag] = (tinycss2.serialize(rule.prelude).strip(), fname, tinycss2.serialize(decl.value).strip())
+            dbg = f"250, 250, 250 {x}"      # --default-bg is user text too: the lenient parser accepts it and it reaches the style attribute
+            shown[tag] = (tinycss2.serialize(rule.prelude).strip(), fname, tinycss2.serialize(decl.value).strip(), dbg)
             try:
                 with open(os.path.join(d, fname), "w", encoding="utf-8") as f:
                     f.write(sheet)
@@ -228,7 +230,7 @@ def e2e_cli(shard, rec, lib, rnd, scratch):
                 rec.count("skipped:file name not creatable")
                 docs = None
                 break
-            rc, out, err = cli.run_subprocess(["./" + fname], cwd=d)
+            rc, out, err = cli.run_subprocess(["./" + fname, "--default-bg", dbg], cwd=d)
             rp = os.path.join(d, "cm_colors_report.html")
             if not os.path.exists(rp):
                 rec.count("e2e_cli_no_report")
@@ -238,8 +240,8 @@ def e2e_cli(shard, rec, lib, rnd, scratch):
         rec.ev()
         if docs:
             case = {"fn": "e2e_cli", "T": T}
-            r = compare(rec, "CLI report (selector string + file name)", docs["ctrl"], docs["host"], marker, T, case,
-                        pairs=[(shown["ctrl"][k], shown["host"][k]) for k in (0, 2, 1)])
+            r = compare(rec, "CLI report (selector string, colour value, file name, --default-bg)", docs["ctrl"], docs["host"], marker, T, case,
+                        pairs=[(shown["ctrl"][k], shown["host"][k]) for k in (3, 0, 2, 1)])
             if r is not None:
                 rec.count("e2e_cli_judged")
                 rec.nontrivial(("cli", T))
